@@ -53,6 +53,25 @@ def main(tier, rep):
             tr["steps"] = [("call", "server-down-then-up", None, "connect=refused(natural)", "")]
             tr["cfg"] = dict(cfg.__dict__)
             traces.append(tr)
+        # a HashClient that has given up on its server(s) (retry_attempts exhausted: nothing left in the rotation): every read
+        # is a miss, nothing is raised; and an idle-expired pooled connection to a server that has died in the meantime
+        giveup = []
+        for kind in ("hash", "hashpooled"):
+            for ra in (0, 1):
+                cfg = L.Cfg(kind=kind, ignore_exc=True, hash_ra=ra)
+                steps = []
+                for i in range(ra + 2):
+                    steps += [("call", "get", None, {("connect", 1): "refused"}, "all"), ("tick", 1)]
+                for op, _ in READS:
+                    steps.append(("call", op, None, None, "all"))
+                giveup.append(L.run_program(cfg, steps, miss=L.miss_result(cfg)))
+        for kind in ("pooled", "hashpooled"):
+            for op, _ in READS:
+                for fault in ({("sendall", 1): "reset"}, {("sendall", 1): "timeout"}, {("close", 1): "oserror"}):
+                    cfg = L.Cfg(kind=kind, ignore_exc=True, idle=3, max_pool=1)
+                    steps = [("call", "get", None, None, "all"), ("tick", 5), ("call", op, None, fault, "all"), ("tick", 1),
+                             ("call", "get", None, None, "all")]
+                    traces.append(L.run_program(cfg, steps, miss=L.miss_result(cfg)))
         # failing deserialiser
         for kind in L.KINDS:
             for op, _ in READS:
@@ -77,6 +96,7 @@ def main(tier, rep):
     finally:
         L.USE_DEFAULTS = False
     L.validate(rep, traces, relevant, PROP)
+    L.validate(rep, giveup, lambda c: c.startswith("C07-"), PROP)
     from drivers import connmodel
     connmodel.design_and_replay(rep, tier, PROP, relevant)
     rep.set("evaluations", len(traces))
